@@ -56,6 +56,8 @@ def enum_operator_table():
         out.append((("binding_block", [("expr", ("call", ("member", ("ident", "a"), "act"), [a]))]), "arg:act:%s" % n))
         out.append((("binding_block", [("expr", ("call", ("member", ("ident", "a"), "put"), [a]))]), "arg:put:%s" % n))
         out.append((("binding_block", [("expr", ("call", ("member", ("ident", "a"), "setNext"), [a]))]), "arg:setNext:%s" % n))
+        out.append((("binding_block", [("expr", ("call", ("member", ("ident", "console"), "log"), [a]))]), "arg:console:%s" % n))
+        out.append((("binding_block", [("expr", ("call", ("member", ("ident", "console"), "warn"), [("int", 1), a, a]))]), "arg:console3:%s" % n))
         out.append((("binding_expr", ("sub", a, ("int", 0))), "subscript-obj:%s" % n))
         out.append((("binding_expr", ("sub", DYN["intlist"], a)), "subscript-idx:%s" % n))
         out.append((("binding_block", [("decl", "let", [("l", None, DYN["intlist"])]), ("expr", ("assign", ("sub", ("ident", "l"), a), ("int", 1)))]), "subscript-write-idx:%s" % n))
